@@ -72,6 +72,7 @@ struct ByteRand : Rand {    // structured decoding of fuzzer bytes; 0 when exhau
 enum : uint8_t { VI = 0, VR = 1, VINF = 2, VUN = 3 };   // int/bool, real, +infinity, unspecified
 struct Val {
     uint8_t t; long i; double d;
+    double s = 0;       // magnitude of the operands this value was computed from (widens the real tolerance)
     Val() : t(VI), i(0), d(0) {}
     static Val I(long x) { Val v; v.t = VI; v.i = x; return v; }
     static Val R(double x) { Val v; v.t = VR; v.d = x; return v; }
@@ -219,6 +220,7 @@ struct Checks {
     bool operands = true;    // operands unchanged after operations
     bool allslots = false;   // re-evaluate every live slot after every step (C06/C07/C13)
     int auditEvery = 1;
+    bool fingerprint = false; // record a handle-free canonical form of every produced edge (C12)
 };
 Checks checksFor(const std::string& property);
 
@@ -228,10 +230,13 @@ struct RunResult {
     int failStep = -1;
     Labels labels;
     bool nontrivial = false;
+    std::vector<uint64_t> fingerprint;
 };
 
 // execute a program in a fresh library session
 RunResult runProgram(const Program& P, const Checks& C);
+// property-aware execution: C12 runs the program once per policy combination and compares
+RunResult runCase(const Program& P, int tier);
 
 // generators (gen_*.cc): build a program for a property
 Program generate(const std::string& property, Rand& R, int tier);
